@@ -77,7 +77,7 @@ def impl():
     return [os.path.join(V.BUILD, "implrun"), "c05"]
 
 
-def parallel_batch(reqs, nproc=12, hang_s=30):
+def parallel_batch(reqs, nproc=16, hang_s=30):
     """run_batch over nproc processes (requests dealt round-robin so that expensive kinds are spread;
     replies in request order)"""
     n = len(reqs)
